@@ -26,7 +26,7 @@ ASSUMPTIONS = [
     "the model's Panic for u32 overflow corresponds to the harness build (overflow checks on)",
 ]
 
-KNOWN_IDS = {"K1": "GETTING_DATA", "K2": "F30"}
+KNOWN_IDS = {"K2": "F30"}
 
 def tmp(ctx):
     d = os.path.join(vlib.CACHE, "tmp", "c01-%d" % os.getpid())
@@ -222,12 +222,13 @@ def boundary_cases(rng):
             out.append((env0, sh, {"vary_xml": False}))
     # every value kind / storage form / style once, fully explicit, all dims
     kinds = [("N", "1.5"), ("N", "43831"), ("S", "s1"), ("S", "inline"), ("S", "fstr"), ("B", True), ("B", False),
-             ("I", "2021-01-01"), ("K",)] + [("X", k) for k in range(7)]
+             ("I", "2021-01-01"), ("K",)] + [("X", k) for k in range(8)]
     for dim in (None, (0, 0), (0, 0, 3, 30), (7, 7, 9, 9)):
         for tn in (False, True):
             cs = []
             for j, v in enumerate(kinds):
-                c = {"col": j * 2, "explicit": True, "val": v, "sform": "i", "tn": tn, "style": j % 4 if j % 3 else None}
+                c = {"col": j * 2, "explicit": True, "val": v, "sform": "i", "tn": tn, "style": j % 4 if j % 3 else None,
+                     "alt": (dim is None) != tn}
                 if v == ("S", "s1"):
                     c["sform"] = ("h", 1)
                 if v == ("S", "fstr"):
@@ -236,7 +237,7 @@ def boundary_cases(rng):
             sh = g.simple_sheet([], dim=dim)
             sh["rows"] = [{"row": 2, "explicit": True, "cells": cs}]
             out.append((env0, sh, {"vary_xml": False}))
-    # the known class on its own
+    # #GETTING_DATA (a known class until it was fixed)
     sh = g.simple_sheet([(0, 0, ("N", "1")), (1, 1, ("X", 7))])
     out.append((env0, sh, {"vary_xml": False}))
     return out
@@ -418,10 +419,10 @@ def run_workbooks(ctx, n, tag, relpfx=None):
     vm_lines, vh_lines, meta = [], [], {}
     for cid, wb, line in zip(ids, wbs, lines):
         f = (enc.get(cid) or "").split("#")
-        if len(f) != 3:
+        if len(f) != 4:
             ctx.disagreements.append({"function": "workbook-encoder", "case": line, "impl": None, "model": enc.get(cid)})
             continue
-        rels_w, wb_w, known = f
+        rels_w, wb_w, known, wb_legal = f
         env = envs[cid]
         specs, sheet_parts, ok = [], [], True
         for j, s in enumerate(wb["sheets"]):
@@ -468,11 +469,11 @@ def run_workbooks(ctx, n, tag, relpfx=None):
         path = write_file(ctx, cid + ".xlsx", g.package(head + tail, rng, rng.choice([None, "stored", "deflated"])))
         vm_lines.append("%s\txlsxsheet\twb\t%s\t%s" % (cid, g.env_wire(env), model_pk))
         vh_lines.append("%s\txlsxsheet\topen\t%s\tall" % (cid, path))
-        meta[cid] = (line, known, specs, path, wb)
+        meta[cid] = (line, known, specs, path, wb, wb_legal)
     model = ctx.run_model(vm_lines)
     impl = ctx.run_impl(vh_lines)
     vmd = {l.split("\t", 1)[0]: l for l in vm_lines}
-    for cid, (line, known, specs, path, wb) in meta.items():
+    for cid, (line, known, specs, path, wb, wb_legal) in meta.items():
         m = model.get(cid) or "?"
         i = impl.get(cid) or "abort"
         ctx.traces += 1
@@ -493,7 +494,10 @@ def run_workbooks(ctx, n, tag, relpfx=None):
             keep = True
         want = "&".join("%s=%s" % (hx(nm), sr) for nm, sr, _, _ in specs)
         sheet_known = [k for _, _, k, _ in specs if k != "-"]
-        if known == "-" and not sheet_known:
+        ctx.count("workbook:legal" if wb_legal == "1" else "workbook:illegal")
+        if wb_legal != "1":
+            pass
+        elif known == "-" and not sheet_known:
             if i_all != want or i_ws != want:
                 ctx.violations.append({"case": vmd[cid], "expected": want, "actual": i, "model": m, "file": path,
                                        "what": "workbook with %d sheet(s): worksheet_range / worksheets() differ from the stored sheets (part-name case, target spelling, prefixes, zip method varied)" % len(specs)})
@@ -524,15 +528,16 @@ def sweep_columns(ctx, rows, lower_every):
                 txt = (name.lower() if lo else name) + str(r + 1)
                 cid = "a%d" % k
                 k += 1
-                lines.append("%s\tcol26\tgroc\t%s" % (cid, hx(txt)))
+                lines.append("%s\txlsxsheet\tgroc\t%s" % (cid, hx(txt)))
                 want[cid] = "ok:%d,%d" % (r, c)
     # beyond the grid, up to the scanner's limits, and the malformed neighbours
-    extra = ["XFE1", "ZZZ1", "AAAA1", "ZZZZZZ1", "AAAAAAA1", "A999999999", "A1000000000", "A0", "A", "1", "", "A1A",
+    extra = ["XFE1", "ZZZ1", "AAAA1", "ZZZZZZ1", "AAAAAAA1", "A999999999", "A1000000000", "A4294967296", "A4294967297",
+             "A18446744073709551616", "A99999999999999999999999", "MWLQKWU1", "MWLQKWV1", "ZZZZZZZZZZZZZZZZZZZZ1", "A0", "A", "1", "", "A1A",
              "1A", "$A$1", "A$1", "a1", "xfd1048576", "A01", "A1 ", " A1", "A-1", "Ä1", "A1:B2", "AA", "@1", "[1", "`1", "{1"]
     for t in extra:
         cid = "a%d" % k
         k += 1
-        lines.append("%s\tcol26\tgroc\t%s" % (cid, hx(t)))
+        lines.append("%s\txlsxsheet\tgroc\t%s" % (cid, hx(t)))
     impl, model = ctx.run_both(lines)
     for l in lines:
         cid = l.split("\t", 1)[0]
